@@ -10,6 +10,9 @@ A case is
                                             | {'t': 'u', 're': regex, 'url': hex}            dynamic -> Url.from_bytes(url)
                                             | {'t': 'l', 're': regex, 'resp': hex}           dynamic -> literal response
                                             | {'t': 'x', 're': regex}                        dynamic -> handle_route raises
+                                            | {'t': 'm', 're': regex, 'url': hex, 'suffix': hex}  dynamic -> u = Url.from_bytes(url);
+                                                                                             u.remainder += suffix; return u
+  or {'seq': [case, ...]}: several connections (same flags / plugins) handled in order by one process.
    'picks': [index returned by random.choice for the plugin at that position, ...],
    'req': [hex piece, ...]            the client's first request as it arrives
    'up': [hex | 'E' | 'R' | 'T' | 'W', ...]   what successive recv() on the upstream socket yield
@@ -35,20 +38,24 @@ THEOREMS = [
     'Px.Reverse.C12_default_disable',
     'Px.Reverse.C12_relay', 'Px.Reverse.C12_relay_segments', 'Px.Reverse.C12_relay_stops',
     'Px.Reverse.C12_dynamic_literal', 'Px.Reverse.C12_dynamic_url',
-    'Px.Reverse.C12_refused', 'Px.Reverse.C12_close',
+    'Px.Reverse.C12_refused', 'Px.Reverse.C12_close', 'Px.Reverse.C12_connections_independent',
 ]
 RULE = ('route tables (1..3 plugins, 0..3 routes each: static with 1..3 upstream URLs http/https with/without '
         'port and path, dynamic returning Url or literal response or raising; edge URLs without scheme/host, bad '
         'scheme, port 0; IPv6 literal hosts inside the quantifier) x request paths matching none/one/several routes x methods x header sets x '
         'bodies (none / Content-Length / chunked) x both --rewrite-host-header settings x --enable-events on/off (with '
         'Authorization / Cookie / Proxy-Authorization fields) x scripted random.choice x '
-        'upstream recv schedules; thorough adds every table of 2 plugins x <=2 routes over 8 route shapes x 3 paths '
+        'upstream recv schedules; sequences of 2-3 connections in one process over tables with a dynamic route that edits '
+        'the Url it got from Url.from_bytes; thorough adds every table of 2 plugins x <=2 routes over 8 route shapes x 3 paths '
         'x 2 rewrite settings; distinct by canonical JSON; non-trivial = inside the property quantifier')
 ASSUMPTIONS = [
     'only the first request of a connection (follow-ups on a kept-alive reverse-proxy connection are C04, defect D12); '
     'inputs whose bytes continue after the first complete request are skipped on both sides (`leftover`)',
     'TLS handshake of upstream.wrap() is out of scope: wrap is patched to a no-op and only the request for it is observed',
     'regex matching is a parameter of the model: the match table is computed by the harness with the real `re`',
+    'connections are independent in the model (fresh handler state each; Url.fromBytes is a pure function, a plugin '
+    'editing the Url it obtained edits its own copy): sequences of 2-4 connections in one process are compared with the '
+    'list of single-connection results (C12_connections_independent)',
     'random.choice is a scripted index; plugins keep the base-class before_routing/protocols/regexes; '
     'handle_route returns a Url or a memoryview (the TcpServerConnection variant is not covered)',
     '--enable-static-server off (C13), client side not TLS; --enable-events on in about a third of the cases: the model '
@@ -130,6 +137,11 @@ def _mk_plugins(case):
             r = _d[pattern.pattern]
             if r['t'] == 'u':
                 return Url.from_bytes(bytes.fromhex(r['url']))
+            if r['t'] == 'm':
+                # like the shipped proxy.plugin.ReverseProxyPlugin: take a Url from from_bytes and edit it
+                choice = Url.from_bytes(bytes.fromhex(r['url']))
+                choice.remainder += bytes.fromhex(r['suffix'])
+                return choice
             if r['t'] == 'l':
                 return memoryview(bytes.fromhex(r['resp']))
             raise RuntimeError('generated plugin raises')
@@ -204,22 +216,30 @@ def _classify(segs):
     return None, p
 
 
+def _subcases(case):
+    """a case is one connection, or {'seq': [...]}: several connections handled one after the other by the
+    same process (same flags and plugin classes, a fresh handler each)"""
+    return case['seq'] if 'seq' in case else [case]
+
+
 def _drive(case):
-    """Runs the real classes; returns a dict of observations."""
+    """Runs the real classes for a single-connection case; returns a dict of observations."""
+    return _drive_seq([case])[0]
+
+
+def _drive_seq(cases):
+    """Runs the real classes: one world (flags, plugin classes, process state) and one fresh
+    HttpProtocolHandler per connection, in order.  Returns one observation dict per connection."""
     import logging
     logging.disable(logging.CRITICAL)
-    from harness.sim import World, elems
+    from harness.sim import elems
     import proxy.http.server.reverse as RV
     import proxy.core.connection.server as SRV
 
-    segs = [bytes.fromhex(s) for s in case['req']]
-    skip, _ = _classify(segs)
-    if skip:
-        return {'skip': skip}
-    classes, seqs = _mk_plugins(case)
-    args = ['--enable-web-server', '--enable-reverse-proxy'] + (['--rewrite-host-header'] if case['rewrite'] else []) \
-        + (['--enable-events'] if case.get('events') else [])
-    obs = {'skip': None}
+    first = cases[0]
+    classes, seqs = _mk_plugins(first)
+    args = ['--enable-web-server', '--enable-reverse-proxy'] + (['--rewrite-host-header'] if first['rewrite'] else []) \
+        + (['--enable-events'] if first.get('events') else [])
     wraps = []
     hr_exc = []
 
@@ -235,90 +255,109 @@ def _drive(case):
             hr_exc.append(e)
             raise
 
-    shim = _Choice(RV.random, seqs, case['picks'])
+    shim = _Choice(RV.random, seqs, first['picks'])
     saved = (RV.random, SRV.TcpServerConnection.wrap)
     RV.random = shim
     SRV.TcpServerConnection.wrap = fake_wrap
     RV.ReverseProxy.handle_request = spy_hr
+    out = []
     try:
         with _world_class()(args=args, threadless=True, strict=False, plugins=classes) as w:
-            if case['connect'] == 'refused':
-                w.connect_plan.append(ConnectionRefusedError(111, 'scripted refused'))
-            h, cs, cp = w.new_client()
-            raised = None
-            for s in segs:
-                cs.script_recv(('data', s))
-                r = w.tick(h, R=[cs.fileno()], W=[])
-                if isinstance(r, tuple):
-                    raised = r[1]
-                    break
-            route = getattr(h.plugin, 'route', None) if h.plugin is not None else None
-            td = bool(h.reads_teared) or bool(h.must_flush_before_shutdown) or raised is not None
-            e = hr_exc[0] if hr_exc else raised
-            obs['td'] = td
-            obs['exc'] = None if e is None else _exc(e)
-            obs['connects'] = list(w.connects)
-            obs['wraps'] = list(wraps)
-            up = route.upstream if route is not None else None
-            obs['up'] = None if up is None else (bool(up.closed), elems(up))
-            obs['client'] = elems(h.work)
-            obs['choice_calls'] = shim.calls
-            # deliver what was queued for the upstream
-            us = peer = None
-            if w.upstreams:
-                us, peer, _ = w.upstreams[0]
-            if us is not None and not td:
-                for _ in range(50):
-                    if not up.has_buffer():
-                        break
-                    w.tick(h, R=[], W=[us.fileno()])
-                peer.pump()
-                obs['upstream_read'] = bytes(peer.inbox)
-            else:
-                obs['upstream_read'] = b''
-            # upstream -> client
-            rtd = False
-            if not td and us is not None:
-                for ev in case['up']:
-                    if ev == 'E':
-                        us.script_recv(('eof',))
-                    elif ev == 'R':
-                        us.script_recv(('reset',))
-                    elif ev == 'T':
-                        us.script_recv(('timedout',))
-                    elif ev == 'W':
-                        us.script_recv(('wantRead',))
-                    else:
-                        us.script_recv(('data', bytes.fromhex(ev)))
-                    r = w.tick(h, R=[us.fileno()], W=[])
-                    if isinstance(r, tuple):
-                        obs['relay_raised'] = _exc(r[1])
-                        rtd = True
-                        break
-                    if h.reads_teared or h.must_flush_before_shutdown or r is True:
-                        rtd = True
-                        break
-            obs['rtd'] = rtd
-            obs['rclient'] = elems(h.work)
-            # flush towards the client and see what the client program reads
-            final = None
-            for _ in range(200):
-                if not h.work.has_buffer():
-                    break
-                final = w.tick(h, R=[], W=[cs.fileno()])
-            cp.pump()
-            obs['client_read'] = bytes(cp.inbox)
-            obs['final_teardown'] = (final is True) or (not h.work.has_buffer() and bool(h.reads_teared))
-            # client connection closes
-            try:
-                if h.plugin is not None:
-                    h.plugin.on_client_connection_close()
-                obs['closes'] = sum(1 for s, _, _ in w.upstreams if s.closed_by_proxy)
-            except Exception as e2:     # noqa: BLE001
-                obs['closes'] = 'exc:' + type(e2).__name__
+            for case in cases:
+                segs = [bytes.fromhex(s) for s in case['req']]
+                skip, _ = _classify(segs)
+                if skip:
+                    out.append({'skip': skip})
+                    continue
+                del wraps[:]
+                del hr_exc[:]
+                shim._picks = case['picks']
+                shim.calls = 0
+                out.append(_drive_conn(w, case, segs, shim, wraps, hr_exc, elems))
     finally:
         RV.random, SRV.TcpServerConnection.wrap = saved
         RV.ReverseProxy.handle_request = orig_hr
+    return out
+
+
+def _drive_conn(w, case, segs, shim, wraps, hr_exc, elems):
+    obs = {'skip': None}
+    c0, u0 = len(w.connects), len(w.upstreams)
+    w.connect_plan.clear()
+    if case['connect'] == 'refused':
+        w.connect_plan.append(ConnectionRefusedError(111, 'scripted refused'))
+    h, cs, cp = w.new_client()
+    raised = None
+    for s in segs:
+        cs.script_recv(('data', s))
+        r = w.tick(h, R=[cs.fileno()], W=[])
+        if isinstance(r, tuple):
+            raised = r[1]
+            break
+    route = getattr(h.plugin, 'route', None) if h.plugin is not None else None
+    td = bool(h.reads_teared) or bool(h.must_flush_before_shutdown) or raised is not None
+    e = hr_exc[0] if hr_exc else raised
+    obs['td'] = td
+    obs['exc'] = None if e is None else _exc(e)
+    obs['connects'] = list(w.connects[c0:])
+    obs['wraps'] = list(wraps)
+    up = route.upstream if route is not None else None
+    obs['up'] = None if up is None else (bool(up.closed), elems(up))
+    obs['client'] = elems(h.work)
+    obs['choice_calls'] = shim.calls
+    # deliver what was queued for the upstream
+    us = peer = None
+    if len(w.upstreams) > u0:
+        us, peer, _ = w.upstreams[u0]
+    if us is not None and not td:
+        for _ in range(50):
+            if not up.has_buffer():
+                break
+            w.tick(h, R=[], W=[us.fileno()])
+        peer.pump()
+        obs['upstream_read'] = bytes(peer.inbox)
+    else:
+        obs['upstream_read'] = b''
+    # upstream -> client
+    rtd = False
+    if not td and us is not None:
+        for ev in case['up']:
+            if ev == 'E':
+                us.script_recv(('eof',))
+            elif ev == 'R':
+                us.script_recv(('reset',))
+            elif ev == 'T':
+                us.script_recv(('timedout',))
+            elif ev == 'W':
+                us.script_recv(('wantRead',))
+            else:
+                us.script_recv(('data', bytes.fromhex(ev)))
+            r = w.tick(h, R=[us.fileno()], W=[])
+            if isinstance(r, tuple):
+                obs['relay_raised'] = _exc(r[1])
+                rtd = True
+                break
+            if h.reads_teared or h.must_flush_before_shutdown or r is True:
+                rtd = True
+                break
+    obs['rtd'] = rtd
+    obs['rclient'] = elems(h.work)
+    # flush towards the client and see what the client program reads
+    final = None
+    for _ in range(200):
+        if not h.work.has_buffer():
+            break
+        final = w.tick(h, R=[], W=[cs.fileno()])
+    cp.pump()
+    obs['client_read'] = bytes(cp.inbox)
+    obs['final_teardown'] = (final is True) or (not h.work.has_buffer() and bool(h.reads_teared))
+    # client connection closes
+    try:
+        if h.plugin is not None:
+            h.plugin.on_client_connection_close()
+        obs['closes'] = sum(1 for s, _, _ in w.upstreams[u0:] if s.closed_by_proxy)
+    except Exception as e2:     # noqa: BLE001
+        obs['closes'] = 'exc:' + type(e2).__name__
     return obs
 
 
@@ -333,15 +372,18 @@ def _hl(xs):
     return '[' + ','.join(hx(x) for x in xs) + ']'
 
 
-def impl(case):
-    o = _drive(case)
+def _obs_line(o):
     if o['skip']:
-        return [o['skip']]
+        return o['skip']
     up = 'None' if o['up'] is None else ('closed' if o['up'][0] else 'open') + _hl(o['up'][1])
     conns = ','.join('%s:%d' % (hx(h.encode() if isinstance(h, str) else h), p) for h, p in o['connects'])
-    return ['ok td=%d exc=%s connects=[%s] wraps=%s up=%s client=%s rtd=%d rclient=%s closes=%s' % (
+    return 'ok td=%d exc=%s connects=[%s] wraps=%s up=%s client=%s rtd=%d rclient=%s closes=%s' % (
         o['td'], o['exc'], conns, _hl([x.encode() for x in o['wraps']]), up, _hl(o['client']), o['rtd'],
-        _hl(o['rclient']), o['closes'])]
+        _hl(o['rclient']), o['closes'])
+
+
+def impl(case):
+    return [_obs_line(o) for o in _drive_seq(_subcases(case))]
 
 
 # ----------------------------------------------------------------------------------------------
@@ -388,6 +430,8 @@ def _enc_table(case, ids):
                 rs.append('s.%d.%s' % (pid, ','.join((u or '-') for u in r['urls']) if r['urls'] else 'e'))
             elif r['t'] == 'u':
                 rs.append('u.%d.%s' % (pid, r['url'] or '-'))
+            elif r['t'] == 'm':
+                rs.append('m.%d.%s.%s' % (pid, r['url'] or '-', r['suffix'] or '-'))
             elif r['t'] == 'l':
                 rs.append('l.%d.%s' % (pid, r['resp'] or '-'))
             else:
@@ -397,12 +441,17 @@ def _enc_table(case, ids):
 
 
 def model_lines(case):
+    # connections are independent in the model: one line per connection, each evaluated on its own
+    return [_model_line(c) for c in _subcases(case)]
+
+
+def _model_line(case):
     ids = _patterns(case)
     picks = ','.join(str(k) for k in case['picks']) or '-'
     evs = ','.join((e or '-') for e in case['up']) or '-'
-    return ['rev run %d %d %s %s %s %s %s %s' % (
+    return 'rev run %d %d %s %s %s %s %s %s' % (
         case['rewrite'], 1 if case.get('events') else 0, case['connect'], _enc_table(case, ids), _match_bits(case, ids), picks, evs,
-        ' '.join((s or '-') for s in case['req']))]
+        ' '.join((s or '-') for s in case['req']))
 
 
 # ----------------------------------------------------------------------------------------------
@@ -456,6 +505,15 @@ def _route_candidates(case, path_text):
                 cands.append(bytes.fromhex(r['url']))
                 if first:
                     yields = True
+            elif r['t'] == 'm':
+                # the route yields, for THIS request, the url with the suffix appended to its path
+                u = bytes.fromhex(r['url'])
+                pu = url_parts(u)
+                if pu is None or pu[3] is None:
+                    inq = False
+                cands.append(u + bytes.fromhex(r['suffix']))
+                if first:
+                    yields = True
             elif r['t'] == 'l':
                 if first:
                     lits.append(bytes.fromhex(r['resp']))
@@ -482,6 +540,8 @@ def _emit_ok(m):
 
 
 def in_quantifier(case):
+    if 'seq' in case:
+        return any(in_quantifier(c) for c in case['seq'])
     m = case.get('meta')
     if not m or not m.get('valid') or case['connect'] != 'ok':
         return False
@@ -527,11 +587,24 @@ def tiny_parse_request(raw):
 
 
 def oracle(case):
+    """The property on the implementation only.  For a sequence of connections every connection is judged
+    by what its own request and the route table say — nothing an earlier connection did may show."""
     if not in_quantifier(case):
         return None
+    subs = _subcases(case)
+    obs = _drive_seq(subs)
+    for k, (c, o) in enumerate(zip(subs, obs)):
+        if not in_quantifier(c):
+            continue
+        sig = _judge(c, o)
+        if sig:
+            return sig if 'seq' not in case else 'connection-%d-of-%d:%s' % (k + 1, len(subs), sig)
+    return None
+
+
+def _judge(case, o):
     from proxy.http.responses import NOT_FOUND_RESPONSE_PKT
     m = case['meta']
-    o = _drive(case)
     if o['skip']:
         return 'valid-web-request-not-served-' + o['skip']
     try:
@@ -628,7 +701,7 @@ def _has_undecodable_dynamic_url(case, path_text):
     for routes in case['plugins']:
         for r in routes:
             if re.compile(r['re']).match(path_text):
-                if r['t'] == 'u':
+                if r['t'] in ('u', 'm'):
                     try:
                         bytes.fromhex(r['url']).decode('utf-8')
                     except UnicodeDecodeError:
@@ -638,6 +711,7 @@ def _has_undecodable_dynamic_url(case, path_text):
 
 
 def classify(case, sig):
+    sig = sig.split(':', 1)[1] if sig.startswith('connection-') else sig
     if sig == STR_FAILURE and STR_ID:
         return STR_ID
     return None
@@ -779,6 +853,36 @@ def _mk_case(rng, plugins, picks, target, rewrite, framing=None, up=None, connec
             'req': [s.hex() for s in segs], 'up': _rup(rng) if up is None else up, 'meta': meta}
 
 
+def _mroute(rx, url, suffix):
+    return {'t': 'm', 're': rx, 'url': url.hex(), 'suffix': suffix.hex()}
+
+
+def _mk_seq(rng, plugins, conns, rewrite, events=0):
+    """conns: [(picks, target, kwargs)] -> one process, one connection each, in order"""
+    return {'seq': [_mk_case(rng, plugins, picks, target, rewrite, events=events, **kw) for picks, target, kw in conns]}
+
+
+def _rseq(rng):
+    """2-3 connections over one table in which a dynamic route edits the Url it got from Url.from_bytes
+    (as the shipped ReverseProxyPlugin does) and static / plain dynamic routes use the same URL bytes"""
+    url = rng.choice([b'http', b'https']) + b'://' + rng.choice(UHOSTS) + rng.choice(UPORTS) + rng.choice(
+        [b'/get', b'/a/b', b'/get?x=1', b'/'])
+    sfx = [rng.choice([b'?id=1', b'?id=2', b'&n=7', b'/more', b'x']) for _ in range(2)]
+    routes = [_mroute('/dyn/(\\d+)$', url, sfx[0]), _mroute('/dyn2', url, sfx[1]), _static('/get$', [url]),
+              {'t': 'u', 're': '/plain', 'url': url.hex()},
+              _static('/two', [url, _rurl(rng)])]
+    rng.shuffle(routes)
+    k = rng.choice([1, 1, 2])
+    plugins = [routes[:len(routes) // k], routes[len(routes) // k:]] if k == 2 else [routes]
+    plugins = [p for p in plugins if p]
+    targets = [b'/dyn/5', b'/dyn/6', b'/dyn2', b'/get', b'/plain', b'/two', b'/nope']
+    conns = []
+    for _ in range(rng.choice([2, 2, 3])):
+        t = rng.choice(targets[:3]) if rng.random() < 0.5 else rng.choice(targets)
+        conns.append(([0] * len(plugins), t, {'up': _rup(rng) if rng.random() < 0.3 else []}))
+    return _mk_seq(rng, plugins, conns, rng.randrange(2), events=1 if rng.random() < 0.2 else 0)
+
+
 def corpus():
     rng = __import__('random').Random(12)
     ex = [_static('/get$', [b'http://httpbingo.org/get', b'https://httpbingo.org/get']),
@@ -813,6 +917,18 @@ def corpus():
                        raw=b'GET / HTTP/1.1\r\nHost: me\r\nX-A: \xff\r\n\r\n'))               # undecodable value
     cs.append(_mk_case(rng, [[_static('/', [b'http://up.test'])]], [0], b'/', 0, up=[], cut=False, events=1,
                        raw=b'GET /\xff HTTP/1.1\r\nHost: me\r\n\r\n'))
+    # several connections in one process: a dynamic route that edits the Url it got from Url.from_bytes must
+    # not leak into later connections (round-4 seed G: lru_cache on from_bytes hands out one shared object)
+    ex_url = b'http://httpbingo.org/get'
+    dyn = [[_mroute(r'/get/(\d+)$', ex_url, b'?id=1'), _static('/get$', [ex_url, b'https://httpbingo.org/get'])]]
+    cs.append(_mk_seq(rng, dyn, [([0], b'/get/1', {'framing': 'none', 'up': []}),
+                                 ([0], b'/get/2', {'framing': 'none', 'up': []}),
+                                 ([0], b'/get', {'framing': 'none', 'up': [b'r'.hex()]})], 0))
+    cs.append(_mk_seq(rng, dyn, [([0], b'/get', {'framing': 'none', 'up': []}),
+                                 ([0], b'/get/7', {'framing': 'cl', 'up': []}),
+                                 ([0], b'/nope', {'framing': 'none', 'up': []}),
+                                 ([0], b'/get/7', {'framing': 'none', 'up': []})], 1))
+    cs.append(_mk_case(rng, [[_mroute('/', b'http://no-path.test', b'?x')]], [0], b'/', 0, 'none', up=[]))   # += on None
     # edge URLs (outside the quantifier; correspondence only)
     for u in EDGE_URLS:
         cs.append(_mk_case(rng, [[_static('/', [u])]], [0], b'/', 1, 'none', up=[]))
@@ -883,6 +999,8 @@ def generate(rng, tier):
             extra = [(G.rcase(rng, k), v) for k, v in extra]
         yield _mk_case(rng, plugins, picks, target, rng.randrange(2), connect=connect,
                        ws=rng.random() < 0.05, events=events, extra_headers=extra)
+    for _ in range(6000 if big else 400):
+        yield _rseq(rng)
     # malformed / non-web requests: correspondence of the guard only
     for _ in range(1500 if big else 150):
         g = G.gen_request(rng, maxbody=40)
@@ -893,6 +1011,12 @@ def generate(rng, tier):
 
 
 def neighbours(case):
+    if 'seq' in case:
+        for c in case['seq']:
+            yield c
+        for k in range(len(case['seq'])):
+            yield {'seq': case['seq'][k:]}
+        return
     for rw in (0, 1):
         yield dict(case, rewrite=rw)
         yield dict(case, rewrite=rw, events=1 - (1 if case.get('events') else 0))
@@ -911,6 +1035,8 @@ def search(rng):
 
 
 def describe(case):
+    if 'seq' in case:
+        return ['connections=%d' % len(case['seq'])] + [x for x in describe(case['seq'][0]) if x.startswith(('plugins', 'rewrite', 'events'))]
     m = case.get('meta') or {}
     out = ['plugins=%d' % len(case['plugins']), 'rewrite=%d' % case['rewrite'], 'events=%d' % (1 if case.get('events') else 0),
            'in-quantifier=%d' % in_quantifier(case)]
